@@ -301,7 +301,7 @@ fn attached() -> &'static (Mutex<HashSet<Uuid>>, Condvar) { ATTACHED.get_or_init
 fn runtime() -> &'static tokio::runtime::Runtime {
     static RT: OnceLock<tokio::runtime::Runtime> = OnceLock::new();
     RT.get_or_init(|| {
-        tokio::runtime::Builder::new_multi_thread().worker_threads(2).enable_all()
+        tokio::runtime::Builder::new_multi_thread().worker_threads(4).enable_all()
             .on_thread_start(|| {
                 vg::set_event_handler(Some(Arc::new(|name, id| {
                     if name == "clone.attach_sent" {
@@ -843,6 +843,183 @@ fn run_case(sc: &Script, plan: Plan, rng: &mut Rng) -> CaseResult {
     CaseResult { trace, choices, imp, oracle, nontrivial, stats, steps }
 }
 
+
+// ---------------------------------------------------------------- free-running cases (real parallelism, oracle only)
+
+/// The same property judged on a *free-running* execution: the real Gate on a multi-thread tokio
+/// runtime, publishers (root gate + clones) and links as concurrently running tasks, no pause
+/// handlers installed (the event taps are no-ops).  No trace exists for such a run, so the Lean
+/// driver only sees an empty trace; the oracle is what judges it.  Ordering facts come from one
+/// global SeqCst ticket counter: ticket(connect returned) < ticket(update_data about to be
+/// called) proves the connection was established first, and likewise for the end of the window.
+fn free_case(seed: u64, big: bool) -> (String, String, bool) {
+    use std::sync::atomic::AtomicU64;
+    let mut r = Rng::new(seed);
+    let cap = r.range(1, 4) as usize;
+    let n_clones = r.range(1, 3) as usize;
+    let n_upd = r.range(5, if big { 200 } else { 40 }) as u32;
+    let n_stable = r.range(1, 3) as usize;
+    let n_churn = r.range(1, 3) as usize;
+    let desc = format!("free clones={n_clones} updates={n_upd} stable={n_stable} churn={n_churn}");
+    let ticket = Arc::new(AtomicU64::new(1));
+    #[derive(Default)]
+    struct Sub { direct: bool, t_conn: u64, t_end: Option<u64>, got: Vec<(u32, u32)> }
+    let subs: Arc<Mutex<Vec<Sub>>> = Arc::new(Mutex::new(vec![]));
+    let upds: Arc<Mutex<Vec<(u32, u32, u64, u64)>>> = Arc::new(Mutex::new(vec![]));
+    let mut fails: Vec<String> = vec![];
+    let rt = runtime();
+    let res = rt.block_on(async {
+        let (gate, agent) = Gate::new(cap);
+        let gate = Arc::new(gate);
+        let g2 = gate.clone();
+        let root_task = tokio::spawn(async move { loop { if g2.process().await.is_err() { break; } } });
+        let (done_tx, done_rx) = tokio::sync::watch::channel(false);
+        let mut link_tasks = vec![];
+        // links: stable ones connect once before the publishers start; churn links come and go
+        let (ready_tx, mut ready_rx) = tokio::sync::mpsc::channel::<()>(16);
+        for li in 0..(n_stable + n_churn) {
+            let stable = li < n_stable;
+            let direct = r.chance(1, 2);
+            let mut lr = r.fork();
+            let mut agent = agent.clone();
+            let subs = subs.clone();
+            let ticket = ticket.clone();
+            let mut done = done_rx.clone();
+            let ready_tx = ready_tx.clone();
+            link_tasks.push(tokio::spawn(async move {
+                let mut kept: Vec<(Option<Link>, Option<DirectLink>, Option<Arc<dyn AnyDirectUpdate>>, usize)> = vec![];
+                let mut first = true;
+                loop {
+                    let idx = { let mut s = subs.lock().unwrap(); s.push(Sub { direct, ..Default::default() }); s.len() - 1 };
+                    let mut q = None; let mut d = None; let mut target = None;
+                    let ok = if direct {
+                        let subs2 = subs.clone();
+                        let t: Arc<dyn AnyDirectUpdate> = Arc::new(vg::FnTarget(Arc::new(move |u| subs2.lock().unwrap()[idx].got.push(rd_update(&u)))));
+                        let mut dl = DirectLink::from(agent.create_link());
+                        let ok = dl.connect(t.clone(), false).await.is_ok();
+                        d = Some(dl); target = Some(t); ok
+                    } else {
+                        let mut l = agent.create_link();
+                        let ok = l.connect(false).await.is_ok();
+                        q = Some(l); ok
+                    };
+                    if !ok { break; }
+                    subs.lock().unwrap()[idx].t_conn = ticket.fetch_add(1, Ordering::SeqCst);
+                    if first { first = false; let _ = ready_tx.send(()).await; }
+                    // consume for a while (stable: until the publishers are done)
+                    let mut budget = if stable { u64::MAX } else { lr.range(1, 30) };
+                    let mut finished = false;
+                    while budget > 0 {
+                        budget -= 1;
+                        if let Some(l) = q.as_mut() {
+                            tokio::select! {
+                                x = l.query() => match x { Ok(u) => subs.lock().unwrap()[idx].got.push(rd_update(&u)), Err(_) => { finished = true; break; } },
+                                _ = done.wait_for(|v| *v) => { finished = true; break; }
+                            }
+                        } else {
+                            tokio::select! {
+                                _ = tokio::time::sleep(Duration::from_micros(lr.range(10, 300))) => {},
+                                _ = done.wait_for(|v| *v) => { finished = true; break; }
+                            }
+                        }
+                    }
+                    if stable || finished {
+                        // publishers are done: everything pushed is in the queue already
+                        if let Some(l) = q.as_mut() { while let Some(Ok(u)) = l.query().now_or_never() { subs.lock().unwrap()[idx].got.push(rd_update(&u)); } }
+                        kept.push((q, d, target, idx));
+                        break;
+                    }
+                    // leave: window ends here; read what was queued before leaving, then disconnect
+                    subs.lock().unwrap()[idx].t_end = Some(ticket.fetch_add(1, Ordering::SeqCst));
+                    if let Some(l) = q.as_mut() {
+                        if lr.chance(1, 3) { l.suspend().await; tokio::task::yield_now().await; }
+                        while let Some(Ok(u)) = l.query().now_or_never() { subs.lock().unwrap()[idx].got.push(rd_update(&u)); }
+                        l.disconnect().await;
+                    }
+                    if let Some(dl) = d.as_mut() { dl.disconnect().await; }
+                    tokio::time::sleep(Duration::from_micros(lr.range(0, 200))).await;
+                }
+                kept
+            }));
+        }
+        drop(ready_tx);
+        for _ in 0..(n_stable + n_churn) { let _ = tokio::time::timeout(Duration::from_secs(5), ready_rx.recv()).await; }
+        // publishers
+        let mut pub_tasks = vec![];
+        for p in 0..=n_clones {
+            let g: Arc<Gate> = if p == 0 { gate.clone() } else { Arc::new((*gate).clone()) };
+            let upds = upds.clone();
+            let ticket = ticket.clone();
+            let mut pr = r.fork();
+            pub_tasks.push(tokio::spawn(async move {
+                for seq in 1..=n_upd {
+                    let tb = ticket.fetch_add(1, Ordering::SeqCst);
+                    g.update_data(mk_update(p, seq)).await;
+                    let te = ticket.fetch_add(1, Ordering::SeqCst);
+                    upds.lock().unwrap().push((p as u32, seq, tb, te));
+                    if p > 0 && pr.chance(1, 2) { let _ = g.process().now_or_never(); }
+                    if pr.chance(1, 4) { tokio::task::yield_now().await; }
+                }
+                g
+            }));
+        }
+        let mut pub_gates = vec![];
+        for t in pub_tasks { match tokio::time::timeout(Duration::from_secs(30), t).await { Ok(Ok(g)) => pub_gates.push(g), _ => return Err("free:publisher-stalled".to_string()) } }
+        let _ = done_tx.send(true);
+        let mut kept_all = vec![];
+        for t in link_tasks { match tokio::time::timeout(Duration::from_secs(30), t).await { Ok(Ok(k)) => kept_all.extend(k), _ => return Err("free:link-task-stalled".to_string()) } }
+        // the upstream terminates and goes away
+        agent.terminate().await;
+        if tokio::time::timeout(Duration::from_secs(10), root_task).await.is_err() { return Err("termination:root-process-did-not-return".to_string()); }
+        let mut term_fail = vec![];
+        for g in pub_gates.iter().skip(1) {
+            let mut ok = false;
+            for _ in 0..200 { match g.process().now_or_never() { Some(Err(Terminated)) => { ok = true; break; } Some(Ok(_)) => continue, None => { tokio::task::yield_now().await; } } }
+            if !ok { term_fail.push("termination:registered-clone-not-notified".to_string()); }
+        }
+        drop(pub_gates);
+        drop(gate);
+        for (q, d, _t, _idx) in kept_all.iter_mut() {
+            if let Some(l) = q.as_mut() {
+                let mut gone = false;
+                for _ in 0..5000 { match tokio::time::timeout(Duration::from_secs(5), l.query()).await { Ok(Err(UnitStatus::Gone)) => { gone = true; break; } Ok(_) => continue, Err(_) => break } }
+                if !gone { term_fail.push("termination:queue-link-not-gone".to_string()); }
+                l.disconnect().await;
+            }
+            if let Some(dl) = d.as_mut() {
+                dl.suspend().await;
+                if dl.get_status() != UnitStatus::Gone { term_fail.push("termination:direct-link-status-not-gone".to_string()); }
+                dl.disconnect().await;
+            }
+        }
+        Ok(term_fail)
+    });
+    match res { Ok(tf) => fails.extend(tf), Err(e) => fails.push(e) }
+    let subs = subs.lock().unwrap();
+    let upds = upds.lock().unwrap();
+    let mut delivered = 0usize;
+    for (si, s) in subs.iter().enumerate() {
+        if s.t_conn == 0 { continue; }
+        delivered += s.got.len();
+        for p in 0..=n_clones as u32 {
+            let q: Vec<u32> = s.got.iter().filter(|m| m.0 == p).map(|m| m.1).collect();
+            if q.windows(2).any(|w| w[0] == w[1]) { fails.push(format!("delivery:duplicate sub={si} pub={p}")); }
+            else if q.windows(2).any(|w| w[0] > w[1]) && !s.direct { fails.push(format!("delivery:out-of-order sub={si} pub={p}")); }
+            else if s.direct { let mut qq = q.clone(); qq.sort(); qq.dedup(); if qq.len() != q.len() { fails.push(format!("delivery:duplicate sub={si} pub={p}")); } else if qq != q { fails.push(format!("delivery:out-of-order sub={si} pub={p}")); } }
+        }
+        for (p, seq, tb, te) in upds.iter() {
+            if s.t_conn < *tb && s.t_end.map(|e| *te < e).unwrap_or(true) && !s.got.contains(&(*p, *seq)) {
+                fails.push(format!("delivery:lost sub={si} pub={p} seq={seq}"));
+            }
+        }
+    }
+    fails.sort(); fails.dedup();
+    let oracle = if fails.is_empty() { "ok".to_string() } else { format!("fail {} {}", fails[0].split_whitespace().next().unwrap(), fails.iter().take(6).cloned().collect::<Vec<_>>().join("; ")) };
+    (format!("cap={cap}||{desc}|{seed}"), oracle, delivered >= 2 * n_upd as usize)
+}
+
+const FREE_IMPL: &str = "ok U=- S=- L=- T=- RT=false Q=0:0";
+
 // ---------------------------------------------------------------- generator
 
 fn gen_script(r: &mut Rng, big: bool) -> Script {
@@ -942,6 +1119,14 @@ fn main() {
         for line in verif_harness::replay_cases(path) {
             let parts: Vec<&str> = line.split('|').collect();
             if parts.len() < 4 { continue; }
+            if parts[2].starts_with("free") {
+                let seed: u64 = parts[3].trim().parse().unwrap_or(0);
+                let big = parts[2].split("updates=").nth(1).and_then(|x| x.split(' ').next()).and_then(|x| x.parse::<u32>().ok()).map(|n| n > 40).unwrap_or(false);
+                let (line, oracle, nt) = free_case(seed, big);
+                rec.bump("cases.free-replay");
+                rec.case(line, FREE_IMPL.into(), oracle, nt);
+                continue;
+            }
             let cap: usize = parts[0].trim_start_matches("cap=").parse().unwrap();
             let sc = Script::parse(cap, parts[2]);
             let forced: Vec<usize> = parts[3].split_whitespace().map(|x| x.parse().unwrap()).collect();
@@ -977,6 +1162,19 @@ fn main() {
             for h in hs { results.push(h.join().unwrap()); }
         });
         for v in results { for (sc, res) in v { record(&mut rec, &sc, res, "random"); } }
+    }
+
+    // free-running cases on the multi-thread runtime (oracle only)
+    {
+        let tf = Instant::now();
+        let fb = Duration::from_secs(if args.thorough { 45 } else { 6 });
+        while tf.elapsed() < fb {
+            let seed = rng.next() >> 16;
+            let (line, oracle, nt) = free_case(seed, args.thorough);
+            rec.bump("cases.free-running");
+            if oracle != "ok" { rec.bump("oracle.fail"); }
+            rec.case(line, FREE_IMPL.into(), oracle, nt);
+        }
     }
 
     // bounded-exhaustive: EVERY schedule with at most `bound` preemptions (switching away from an actor
